@@ -81,6 +81,25 @@ params:
 `, strconv.Quote(base), def, HmacKeyB64)
 }
 
+// CheapConfigYAMLOnly is CheapConfigYAML restricted to the given parameter-set ids.
+func CheapConfigYAMLOnly(base string, def uint, only []uint) string {
+	full := CheapConfigYAML(base, def)
+	head, rest, _ := strings.Cut(full, "params:\n")
+	blocks := strings.Split(rest, "  - id: ")
+	out := head + "params:\n"
+	for _, b := range blocks {
+		if b == "" {
+			continue
+		}
+		for _, id := range only {
+			if strings.HasPrefix(b, fmt.Sprintf("%d\n", id)) {
+				out += "  - id: " + b
+			}
+		}
+	}
+	return out
+}
+
 // PwKey is the key under which two passwords are indistinguishable for a parameter set:
 // exact bytes for argon2id; for scrypt (PBKDF2-HMAC-SHA256 inside) the HMAC-normalised key.
 func PwKey(set uint, pw string) string {
